@@ -241,6 +241,38 @@ pub fn spaces(tier: Tier) -> Vec<Space<'static>> {
         o.push(b'}');
         judge(&o, acc);
     }));
+    // string bodies: every sequence of <= 4 units over an alphabet of escapes and raw characters
+    // (runs of backslashes before a quote, escapes next to escapes, raw control characters)
+    {
+        const UNITS: [&[u8]; 10] = [b"\\\\", b"\\\"", b"a", b"\\/", b"\\n", b"\\u0041", b"\x01", "é".as_bytes(), b"/", b"u"];
+        let n = UNITS.len() as u64;
+        let total: u64 = (0..=4u32).map(|k| n.pow(k)).sum();
+        sp.push(Space::new("string bodies: every sequence of <= 4 escape/raw units, as value and as key", total, move |idx, acc| {
+            let mut i = idx;
+            let mut len = 0u32;
+            let mut c = 1u64;
+            while i >= c {
+                i -= c;
+                c *= n;
+                len += 1;
+            }
+            let mut body: Vec<u8> = vec![];
+            for _ in 0..len {
+                body.extend_from_slice(UNITS[(i % n) as usize]);
+                i /= n;
+            }
+            let mut t = b"\"".to_vec();
+            t.extend_from_slice(&body);
+            t.push(b'"');
+            judge(&t, acc);
+            let mut o = b"{\"".to_vec();
+            o.extend_from_slice(&body);
+            o.extend_from_slice(b"\":[\"");
+            o.extend_from_slice(&body);
+            o.extend_from_slice(b"\",1]}");
+            judge(&o, acc);
+        }));
+    }
     // every \uXXXX code unit in three spellings
     sp.push(Space::new("all-code-units-x-3-escape-forms", 65536 * 4, |i, acc| {
         let cu = i / 4;
